@@ -110,6 +110,8 @@ def evaluate(spec, hist, compare_admin=False):
             ov_at[i] = copy.deepcopy(ov)
             if k in SKIP_COMPARE and not compare_admin:
                 continue
+            if k == "retag":
+                continue            # display only: nothing to compare, nothing the solo run needs to know
             if k == "edit":
                 if res.get("kind") == "ok":
                     ov["edits"].append([op["kind"], op["index"], op["field"], op["value"]])
